@@ -215,7 +215,8 @@ static AnyArg make_arg(const Plan &p, const ArgSpec &a) {
     }
     if (x.kind == AK_RAWBYTES) {
         // one half of a 2-byte character: valid only together with its neighbour
-        x.s8 = (a.v & 1) ? std::string("\xA9") : std::string("\xC3");
+        // (v = 2, 3: the lead byte of a three- / four-byte character whose continuation bytes arrive as a pad run)
+        x.s8 = a.v == 2 ? std::string("\xE2") : a.v == 3 ? std::string("\xF0") : (a.v & 1) ? std::string("\xA9") : std::string("\xC3");
         return x;
     }
     if (x.kind == AK_NESTED) { Scalars sc = source_text(p.data_seed, a.v, a.n % 20, p.text_mix); enc8(sc, x.s8); return x; }
@@ -666,7 +667,14 @@ Plan gen_plan(uint64_t runseed) {
     unsigned nargs = r.below(5);
     const bool many = r.below(20) == 0;            // low-rate class: many arguments and many segments in one call
     if (many) nargs = 5 + r.below(8);
-    if (split_class) {
+    if (split_class && r.below(3) == 0) {
+        // ... or a character completed by a *pad run*: "{<3_\x82}" of "\xE2" is U+2082, "{<4_\x9F}" of "\xF0" is U+1F7DF - two or three pad bytes
+        // that are not ASCII in a call ST::format accepts
+        const bool four = r.below(2);
+        Seg f; f.type = 1; f.align = 1; f.pad = 1; f.padch = four ? 0x9F : 0x82; f.width = four ? 4 : 3; p.segs.push_back(f);
+        ArgSpec a; a.kind = AK_RAWBYTES; a.v = four ? 3 : 2; p.args.push_back(a);
+        if (r.below(2)) { Seg l; l.type = 0; l.src = r.below(1000); l.n = 1 + r.below(6); p.segs.insert(p.segs.begin(), l); }
+    } else if (split_class) {
         Seg f; f.type = 1; p.segs.push_back(f); p.segs.push_back(f);
         ArgSpec a; a.kind = AK_RAWBYTES; a.v = 0; p.args.push_back(a); a.v = 1; p.args.push_back(a);
         if (r.below(2)) { Seg l; l.type = 0; l.src = r.below(1000); l.n = 1 + r.below(6); p.segs.insert(p.segs.begin(), l); }
